@@ -312,7 +312,7 @@ class CACGMMTrainer:
             eigenvalue_floor=eigenvalue_floor,
             inline_permutation_aligner=inline_permutation_aligner,
         )
-        return model.predict(y)
+        return model.predict(y, source_activity_mask=source_activity_mask)
 
     def _m_step(
             self,
